@@ -1,7 +1,7 @@
 (* C16 — property theorems only.  Each is closed by [exact]; see C16/*.v. *)
 From Coq Require Import List Arith Bool PeanoNat NArith Relations.
 From VV Require Import Lib.Base C16.Model C16.Inv C16.GraftSpec C16.ProofsM C16.ProofsQ C16.History
-     C16.History2 C16.Trans C16.Toposort C16.Sweep.
+     C16.History2 C16.Trans C16.Toposort C16.Sweep C16.Flatten C16.Heap.
 Import ListNotations.
 
 (* one operation of the FULL editing alphabet (new graph, node/edge insertion and removal,
@@ -51,10 +51,35 @@ Print Assumptions C16_graft_refines.
 
 (* frame: an operation changes at most its target object; +, copy, invert only create one *)
 Theorem C16_frame : forall (w : world) e w' q,
-  wstep w (f_wop e) = Ok w' -> q < length w -> target e <> Some q ->
+  wstep w (f_wop e) = Ok w' -> q < length w -> History2.target e <> Some q ->
   nth_error w' q = nth_error w q.
 Proof. exact frame_full. Qed.
 Print Assumptions C16_frame.
+
+(* ALIASING (Heap.v): the Python set objects holding the edges and the RList objects have
+   identities in a store; each operation says which statement allocates a fresh object and which
+   mutates in place.  After ANY history of the 13 operations of the world alphabet the graph
+   objects own pairwise disjoint, allocated objects ... *)
+Theorem C16_heap_separation_invariant : forall l : list hop, sep (hrun hw_empty l).
+Proof. exact sep_invariant. Qed.
+Print Assumptions C16_heap_separation_invariant.
+
+(* ... the heap worlds erase exactly to the worlds of the functional model (so every theorem
+   about Model.wstep worlds holds for them) ... *)
+Theorem C16_heap_simulates_model : forall l : list hop,
+  erase_w (hrun hw_empty l) = wrun_ops [] (map Heap.to_wop l).
+Proof. exact hrun_sim. Qed.
+Print Assumptions C16_heap_simulates_model.
+
+(* ... and an operation leaves the value of every object it does not target as it was: copies,
+   inverted graphs and sums are independent of the original and vice versa, for all histories.
+   (Heap.copy_sharing_refuted: a copy that reuses the set objects violates this.) *)
+Theorem C16_copy_independent : forall (l : list hop) (o : hop) (q : nat) (w' : hworld),
+  let w := hrun hw_empty l in
+  hstep w o = Ok w' -> Heap.target o <> Some q -> q < length (snd w) ->
+  nth_error (erase_w w') q = nth_error (erase_w w) q.
+Proof. exact copy_independent. Qed.
+Print Assumptions C16_copy_independent.
 
 (* depends(), <= and == report the plain graph *)
 Theorem C16_depends_reports : forall g a b, g_ok g ->
@@ -76,6 +101,12 @@ Theorem C16_eq_reports : forall g h, g_ok g -> g_ok h ->
     (r = true <-> (forall k, cnode g k <-> cnode h k) /\ (forall x y, cedge g x y <-> cedge h x y)).
 Proof. exact isomorphic_ok. Qed.
 Print Assumptions C16_eq_reports.
+
+Theorem C16_initial_terminal_report : forall g, g_ok g ->
+  (exists l, initial g = Ok l /\ forall k, In k l <-> is_init g k) /\
+  (exists l, terminal g = Ok l /\ forall k, In k l <-> is_term g k).
+Proof. exact (fun g H => conj (initial_ok g H) (terminal_ok g H)). Qed.
+Print Assumptions C16_initial_terminal_report.
 
 (* transitive closure and reduction, all acyclic graphs (unbounded) *)
 Theorem C16_closure_correct : forall g, g_ok g -> acyclic g ->
@@ -115,6 +146,62 @@ Print Assumptions C16_toposort_complete.
 Theorem C16_toposort_cyclic : forall g, g_ok g -> ~ acyclic g -> topological_sort g = Raise ECyclic.
 Proof. exact toposort_cyclic. Qed.
 Print Assumptions C16_toposort_cyclic.
+
+(* FLATTEN, general (unbounded, Flatten.v).  [subs] says which keys are nested graphs and which;
+   nesting is well-founded by the measure [rank] (a nested graph only contains nested graphs of
+   smaller rank); [inside] = transitively contained; [vstep] = the constraint relation of the nested
+   graph where a nested node q is the pair T q (after all of q) / B q (before all of q).
+   One graft step keeps the plain nodes and the constraints ... *)
+Theorem C16_graft_preserves_order :
+  forall (subs : key -> option cgraph) (rank : key -> nat) (g : cgraph) (q : key) (sub : cgraph),
+  g_ok g ->
+  (forall k s, subs k = Some s -> g_ok s) ->
+  (forall k s x, subs k = Some s -> cnode s x -> subs x <> None -> rank x < rank k) ->
+  subs q = Some sub -> cnode g q ->
+  (forall v, ~ clos_trans vnode (vstep subs g) v v) ->
+  ((exists x, cnode sub x) \/
+   (forall k s', cnode g k -> subs k = Some s' -> forall x, ~ cnode s' x)) ->
+  exists g', graft g q sub = Ok g' /\ g_ok g' /\
+    (forall k, subs k = None -> (inside subs g' k <-> inside subs g k)) /\
+    (forall v, ~ clos_trans vnode (vstep subs g') v v) /\
+    (forall a b, clos_trans vnode (vstep subs g') (P a) (P b) <->
+                 clos_trans vnode (vstep subs g) (P a) (P b)).
+Proof. exact graft_preserves_order. Qed.
+Print Assumptions C16_graft_preserves_order.
+
+(* ... and flatten (sharing of nested graph objects between levels allowed, empty ones included):
+   the nodes of the result are the plain nodes inside, and for plain a, b there is a path a ->+ b in
+   the flattened graph iff the nested graph constrains a after b *)
+Theorem C16_flatten_preserves_order :
+  forall (subs : key -> option cgraph) (rank : key -> nat) (bound fuel : nat) (g : cgraph),
+  g_ok g ->
+  (forall k s, subs k = Some s -> g_ok s) ->
+  (forall k s x, subs k = Some s -> cnode s x -> subs x <> None -> rank x < rank k) ->
+  (forall k, inside subs g k -> subs k <> None -> rank k < bound) ->
+  (forall v, ~ clos_trans vnode (vstep subs g) v v) ->
+  bound + 3 <= fuel ->
+  exists g', flatten fuel subs true g = Ok g' /\ g_ok g' /\
+    (forall k, cnode g' k <-> inside subs g k /\ subs k = None) /\
+    (forall a b, subs a = None -> subs b = None ->
+       (clos_trans key (cedge g') a b <-> clos_trans vnode (vstep subs g) (P a) (P b))).
+Proof. exact flatten_preserves_order. Qed.
+Print Assumptions C16_flatten_preserves_order.
+
+(* the same for the flatten operation of a world of graph objects *)
+Theorem C16_world_flatten_preserves_order :
+  forall (w : world) (r : nat) (g : cgraph) (rank : key -> nat) (bound : nat),
+  nth_error w r = Some g -> g_ok g ->
+  (forall k s, sub_of w k = Some s -> g_ok s) ->
+  (forall k s x, sub_of w k = Some s -> cnode s x -> sub_of w x <> None -> rank x < rank k) ->
+  (forall k, inside (sub_of w) g k -> sub_of w k <> None -> rank k < bound) ->
+  (forall v, ~ clos_trans vnode (vstep (sub_of w) g) v v) ->
+  bound + 3 <= length w + length w ->
+  exists g', wstep w (WFlatten r true) = Ok (set_nth r g' w) /\ g_ok g' /\
+    (forall k, cnode g' k <-> inside (sub_of w) g k /\ sub_of w k = None) /\
+    (forall a b, sub_of w a = None -> sub_of w b = None ->
+       (clos_trans key (cedge g') a b <-> clos_trans vnode (vstep (sub_of w) g) (P a) (P b))).
+Proof. exact wflatten_preserves_order. Qed.
+Print Assumptions C16_world_flatten_preserves_order.
 
 (* exhaustive: all loop-free digraphs on n <= 5 nodes (edge masks m), built through the
    model's own add_node / add_dependency *)
